@@ -1,11 +1,12 @@
 package main
 
 import (
-	"go/types"
-	"sort"
 	"fmt"
 	"go/token"
+	"go/types"
 	"math"
+	"sort"
+	"strings"
 	"unicode/utf8"
 
 	"golang.org/x/tools/go/ssa"
@@ -718,6 +719,20 @@ func (it *Interp) checkView(fr *frame, p Ptr, to *TInfo) {
 		fn := "?"
 		if fr != nil {
 			fn = fr.cf.fn.Name()
+			// the library functions through which the cast was reached (a known finding names one route)
+			var via []string
+			for f := fr.caller; f != nil && len(via) < 3; f = f.caller {
+				n := f.cf.fn.Name()
+				if strings.HasPrefix(n, "vp") || strings.HasPrefix(n, "init$") {
+					break
+				}
+				via = append(via, n)
+			}
+			if len(via) == 0 {
+				fn += "/called-directly"
+			} else {
+				fn += "/via-" + strings.Join(via, "<")
+			}
 		}
 		it.event(fr, "unsafe-widening/"+shortType(to.elem.name)+"/in-"+fn, fmt.Sprintf("*%s (%d bytes) viewing %d bytes of %s", to.elem.name, need, have, p.obj.what))
 	}
